@@ -346,6 +346,64 @@ Theorem C02_check_power_plant_sound : forall tol p eu amb avail n m cp tprod tin
 Proof. exact check_power_plant_sound. Qed.
 Print Assumptions C02_check_power_plant_sound.
 
+(* ---- round 2: SurfacePlantSUTRA (reservoir thermal energy storage) ---- *)
+
+(* every step, for a positive time step: injected + produced = simulated heat (as power), total = produced + auxiliary,
+   signs, the total supply meets the target, and equals max(simulated, target) when the store delivers *)
+Theorem C02_sutra_step : forall dt target sim, 0 < dt ->
+  sutra_injected dt sim + sutra_produced dt sim == sim / dt / 1000 /\
+  sutra_total dt target sim == sutra_produced dt sim + sutra_aux dt target sim /\
+  sutra_injected dt sim <= 0 /\ 0 <= sutra_produced dt sim /\ 0 <= sutra_aux dt target sim /\
+  target / dt / 1000 <= sutra_total dt target sim /\
+  (0 <= sim -> sutra_total dt target sim == Qmax sim target / dt / 1000).
+Proof. exact sutra_step. Qed.
+Print Assumptions C02_sutra_step.
+
+(* the whole plant, for every profile length and number of years: the series are the per-step functions of every second
+   profile entry (plus the last), annual total = annual produced + annual auxiliary, annual produced energy = the sum
+   of max(simulated heat, 0) over the year's 730 steps / 1e6 (the time step cancels), pumping energy = sum x time step *)
+Theorem C02_sutra_plant : forall time target sim pump o,
+  sutra_plant time target sim pump = Ok o ->
+  exists tv tg sm,
+    subsample time = Some tv /\ subsample target = Some tg /\ subsample sim = Some sm /\ length tg = length sm /\
+    s_dt o = sutra_dt tv /\ ~ s_dt o == 0 /\
+    s_inj o = map (sutra_injected (s_dt o)) sm /\ s_prod o = map (sutra_produced (s_dt o)) sm /\
+    s_aux o = map2 (sutra_aux (s_dt o)) tg sm /\ s_tot o = map2 (sutra_total (s_dt o)) tg sm /\
+    length (s_ann_tot o) = Z.to_nat (py_round (last tv 0 / 8766)) /\
+    forall i, (i < length (s_ann_tot o))%nat ->
+      nth i (s_ann_tot o) 0 == nth i (s_ann_prod o) 0 + nth i (s_ann_aux o) 0 /\
+      nth i (s_ann_prod o) 0 == sumQ (map (fun s => if Qltb s 0 then 0 else s) (sutra_block sm i)) / 1000000 /\
+      nth i (s_pumpkwh o) 0 == sumQ (sutra_block pump i) * s_dt o.
+Proof. exact sutra_plant_spec. Qed.
+Print Assumptions C02_sutra_plant.
+
+(* "every second entry": entry t of the sub-sampled profile is entry 2t of the profile *)
+Theorem C02_sutra_stride : forall t l, nth t (every_other l) 0 = nth (2 * t) l 0.
+Proof. exact every_other_nth. Qed.
+Print Assumptions C02_sutra_stride.
+
+Theorem C02_check_sutra_points_sound : forall tol dt raw_target raw_sim inj prod aux tot,
+  check_sutra_points tol dt raw_target raw_sim inj prod aux tot = true ->
+  length inj = length (every_other raw_sim) /\
+  forall t, (t < length (every_other raw_sim))%nat ->
+    let sim := nth (2 * t) raw_sim 0 in
+    let target := nth (2 * t) raw_target 0 in
+    approx tol (sutra_injected dt sim) (nth t inj 0) /\ approx tol (sutra_produced dt sim) (nth t prod 0) /\
+    approx tol (sutra_aux dt target sim) (nth t aux 0) /\ approx tol (sutra_total dt target sim) (nth t tot 0).
+Proof. exact check_sutra_points_sound. Qed.
+Print Assumptions C02_check_sutra_points_sound.
+
+Theorem C02_check_sutra_year_sound : forall tol dt inj prod aux tot pump annual,
+  check_sutra_year tol dt inj prod aux tot pump annual = true ->
+  length inj = 730%nat /\
+  approx tol (sumQ (firstn 730 inj) * dt / 1000) (nth 0 annual 0) /\
+  approx tol (sumQ (firstn 730 prod) * dt / 1000) (nth 1 annual 0) /\
+  approx tol (sumQ (firstn 730 aux) * dt / 1000) (nth 2 annual 0) /\
+  approx tol (sumQ (firstn 730 tot) * dt / 1000) (nth 3 annual 0) /\
+  approx tol (sumQ (firstn 730 pump) * dt) (nth 4 annual 0).
+Proof. exact check_sutra_year_sound. Qed.
+Print Assumptions C02_check_sutra_year_sound.
+
 (* every end-use option that exists in the current source (table regenerated on each run) has a branch in the model *)
 Theorem C02_enduse_table_covered : forall c, In c enduse_codes -> exists eu, enduse_of_code c = Some eu.
 Proof. exact (covers_enduse_sound enduse_codes eq_refl). Qed.
@@ -406,3 +464,15 @@ Proof. do 4 eexists. split. vm_compute. reflexivity. repeat split; vm_compute; r
 
 Example C02_ex_corr_blend : etau_at P_SFLASH 10 200 == (etau_bracket P_SFLASH true 5 200 + etau_bracket P_SFLASH true 15 200) / 2.
 Proof. vm_compute. reflexivity. Qed.
+
+(* SUTRA: 5 profile entries (0, half a year twice, a year twice) -> 3 steps, 1 year; the store is charged (-50), then
+   delivers 30 of a 40 target (10 auxiliary), then 45 of 40 *)
+Example C02_ex_sutra :
+  exists o, sutra_plant [0; 4383; 4383; 8766; 8766] [-50; -50; 40; 40; 40] [-50; -50; 30; 30; 45] [1; 1; 1] = Ok o /\
+            s_dt o == 2922 /\ nth 0 (s_inj o) 0 == - 50 / 2922 / 1000 /\ nth 1 (s_prod o) 0 == 30 / 2922 / 1000 /\
+            nth 1 (s_aux o) 0 == 10 / 2922 / 1000 /\ nth 2 (s_aux o) 0 == 0 /\ nth 2 (s_tot o) 0 == 45 / 2922 / 1000 /\
+            nth 0 (s_ann_prod o) 0 == 75 / 1000000 /\ nth 0 (s_ann_tot o) 0 == 85 / 1000000.
+Proof. eexists. split. vm_compute. reflexivity. repeat split; vm_compute; reflexivity. Qed.
+
+Example C02_ex_round : py_round (5 # 2) = 2%Z /\ py_round (7 # 2) = 4%Z /\ py_round (262968 # 8766) = 30%Z.
+Proof. repeat split; vm_compute; reflexivity. Qed.
